@@ -181,16 +181,15 @@ impl UserBoundsList {
             .list
             .iter()
             .flat_map(|bof| match bof {
-                // XXX how to do it using only iterators, no collect?
-                BoundOrFiller::Bound(b) => anyhow::Ok(
-                    b.complement(num_fields)?
-                        .into_iter()
-                        .map(BoundOrFiller::Bound)
-                        .collect(),
-                ),
-                BoundOrFiller::Filler(f) => Ok(vec![BoundOrFiller::Filler(f.clone())]),
+                BoundOrFiller::Bound(b) => match b.complement(num_fields) {
+                    Ok(v) => v.into_iter().map(BoundOrFiller::Bound).collect(),
+                    // a bound that does not resolve is kept as it is, so that
+                    // its fallback is printed in its place or the record
+                    // fails, exactly as without --complement
+                    Err(_) => vec![BoundOrFiller::Bound(b.clone())],
+                },
+                BoundOrFiller::Filler(f) => vec![BoundOrFiller::Filler(f.clone())],
             })
-            .flatten()
             .collect();
 
         if !list.iter().any(|bof| matches!(bof, BoundOrFiller::Bound(_))) {
